@@ -74,8 +74,8 @@ void drv_pesr_dealloc(void *p, std::size_t sz) { PESR::dealloc(p, sz); }
 // ---- custom_allocator_base<Allocator, async_promise<int>>: both placement forms of operator new, and operator delete
 #define OPS(tag, A) \
   void *drv_new_##tag(std::size_t sz, A *st, int arg) { return PT<A>::operator new(sz, *st, arg); } \
-  void *drv_new2_##tag(std::size_t sz, Host *h, A *st, int arg) { return PT<A>::operator new(sz, *h, *st, arg); } \
-  void drv_delete_##tag(void *p, std::size_t sz) { PT<A>::operator delete(p, sz); }
+  void *drv_new2_##tag(std::size_t sz, Host *h, A *st, int arg) { return PT<A>::operator new(sz, *h, *st, arg); }
+/* drv_delete_<tag>: see OPSD at the end of this file (the call of operator delete is isolated there) */
 OPS(ds, default_storage)
 OPS(rs, reusable_storage)
 OPS(pa, placement_alloc)
@@ -84,4 +84,37 @@ OPS(ss, stack_storage)
 OPS(rb, RBS)
 OPS(pes, PES)
 OPS(pesr, PESR)
+}
+
+// ======================================================================================================================
+// additions (size hand-shake of promise_extra_storage / isolation of the promise's operator delete)
+// ======================================================================================================================
+// ---- operator delete of the promise, called the way the coroutine's destroy code calls it: the language looks the deallocation
+// function up in the promise's scope and passes (ptr, frame size) when it takes a size, else (ptr).  The call goes through
+// requires-expressions so that a change of the operator's signature leaves this TU compilable (all other C19 units stay decidable);
+// such a change then shows up as a failed forwarder obligation of unit `ops` (wrong size / nothing reaches Allocator::dealloc).
+template<typename P> inline void c19_promise_delete(void *p, std::size_t sz) {
+    if constexpr (requires { P::operator delete(p, sz); }) P::operator delete(p, sz);
+    else if constexpr (requires { P::operator delete(p); }) P::operator delete(p);
+    // else: no usable deallocation function - nothing reaches the storage (the obligation "exactly one call" fails)
+}
+// ---- promise_extra_storage over the thread-safe reusable storage: the one inner policy of the library that is default
+// constructible AND keeps a trailer (owner pointer) at ptr+size, i.e. that depends on getting back the size it was asked for
+using PESM = promise_extra_storage<Extra, reusable_storage_mtsafe>;
+extern "C" {
+#define OPSD(tag, A) void drv_delete_##tag(void *p, std::size_t sz) { c19_promise_delete<PT<A> >(p, sz); }
+OPSD(ds, default_storage)
+OPSD(rs, reusable_storage)
+OPSD(pa, placement_alloc)
+OPSD(mt, reusable_storage_mtsafe)
+OPSD(ss, stack_storage)
+OPSD(rb, RBS)
+OPSD(pes, PES)
+OPSD(pesr, PESR)
+void drv_pesm_ctor(PESM *out, long v) { new(out) PESM(MakeExtra{v}); }
+void drv_pesm_dtor(PESM *a) { a->~PESM(); }
+void *drv_pesm_alloc(PESM *a, std::size_t sz) { return a->alloc(sz); }
+void drv_pesm_dealloc(void *p, std::size_t sz) { PESM::dealloc(p, sz); }
+OPS(pesm, PESM)
+OPSD(pesm, PESM)
 }
